@@ -111,7 +111,8 @@ def gen_step(rng, m, pos, mutable):
 def expected_pos_after_mutator(op, a, ma, p, L0, L1, ok):
     """Set of acceptable positions after a mutator (documented rule or T10)."""
     if not ok:
-        return {p, 0}, 'T10'
+        # "other operations move pos only as documented": a raising call that left the length alone leaves pos alone
+        return ({p}, None) if L1 == L0 else ({p, 0}, 'T10')
     if op in ('append', 'iadd'):
         return {L1}, None
     if op in ('prepend', 'clear'):
@@ -126,7 +127,8 @@ def expected_pos_after_mutator(op, a, ma, p, L0, L1, ok):
         if ipos < 0:
             ipos += L0
         return {ipos + len(bs)}, None
-    return {p, 0}, 'T10'
+    # <<=, >>=, *=, &=, |=, ^=, rol, ror, reverse, byteswap, invert, set: no documented move; T10 only when the length changed (*=)
+    return ({p}, None) if L1 == L0 else ({p, 0}, 'T10')
 
 
 def episode(ctx, case, nsteps=0):
@@ -425,13 +427,14 @@ def step(ctx, s, m, pos, st, case, cname):
         ctx.op('propassign', 'ok' if kind == 'ok' else type(got).__name__)
         real = B(s)
         sp = s.pos
-        ctx.tolerate('T10')
+        if len(real) != L:
+            ctx.tolerate('T10')
         if not 0 <= sp <= len(real):
             bad(f'C06|propassign|{"ok" if kind == "ok" else "raised"}|pos-out-of-range', f'{attr}={v!r:.30}: pos={sp} len={len(real)}')
             s.pos = 0
             sp = 0
-        elif sp not in (pos, 0):
-            bad('C06|propassign|any|pos-rule', f'pos={sp} old={pos}')
+        elif sp not in ((pos, 0) if len(real) != L else (pos,)):
+            bad('C06|propassign|any|pos-rule', f'pos={sp} old={pos} (len {L}->{len(real)})')
         m = real
         if mech:
             ctx.mismatch(mech, case, detail)
